@@ -426,6 +426,14 @@ def optimize_kl(likelihood_energy,
 
         if output_directory is not None:
             _export_operators(iglobal, export_operator_outputs, sl, comm(iglobal))
+            if save_strategy == "latest":
+                # The files of the last finished iteration are overwritten in
+                # place. Invalidate the marker first such that a run that is
+                # interrupted while they are inconsistent starts from scratch
+                # instead of resuming from a mixture of two iterations
+                if _MPI_master(comm(iglobal)):
+                    _remove_last_finished_index()
+                _barrier(comm(iglobal))
             sl.save(join(output_directory, "pickle/") + _file_name_by_strategy(iglobal),
                     overwrite=True)
 
@@ -482,6 +490,12 @@ def _save_last_finished_index(index):
     with open(file_name + ".tmp", "w") as f:
         f.write(str(index))
     os.replace(file_name + ".tmp", file_name)
+
+
+def _remove_last_finished_index():
+    file_name = join(_output_directory, "last_finished_iteration")
+    if isfile(file_name):
+        os.remove(file_name)
 
 
 def _save_random_state():
